@@ -419,6 +419,12 @@ impl Writer for ProtobufWriter<'_> {
 
     #[inline]
     fn write_null<C: null::Constraint>(&mut self, _value: &Null) -> Result<(), Self::Error> {
+        // NULL occupies a field number (it is declared as bytes field), the explicit empty field
+        // makes it visible as list element and as selected CHOICE alternative
+        let tag = self.state.tag_counter + 1;
+        self.buffer.write_tagged_bytes(tag, &[])?;
+        self.state.tag_counter = tag;
+        self.state.format = Some(Format::LengthDelimited);
         Ok(())
     }
 }
